@@ -93,7 +93,7 @@ def gen_lines(rng, ex, cid, st, count):
 
 
 def streams(ctx, scale=1):
-    per = (130 if ctx.tier == "quick" else 5000) * scale
+    per = (130 if ctx.tier == "quick" else 2500) * scale
     ex = pg.exe(ctx, "base")
     lines = ["cfg"]
     for cid in IDS["base"]:
